@@ -15,6 +15,9 @@
 //	raw <hex>                           raw bytes the parser must reject (last field of the Tree)
 //	missing D...                        digests the CAS reports missing
 //	fault <callIndex> <code>            the CAS call with that index (FindMissing and Get counted together) fails
+//	composite whole | slice <off> <len> | fail <code>
+//	                                    read through GetFromComposite with a slicer that returns the parent, a byte
+//	                                    range of it, or (after reading the parent) an error of its own
 //
 //	D ::= - | bad:<kind> | f<id>.<size> | t<k>
 //
@@ -144,6 +147,8 @@ type caseSpec struct {
 	trees         []*treeSpec
 	missing       []dtok
 	faults        map[int]int
+	composite     string // "" (Get), whole, slice, fail
+	cargs         []int
 }
 
 var modeArity = map[string]int{"cas": 0, "proto": 0, "raw": 1, "stream": 1, "geterr": 2, "trunc": 3, "corrupt": 1, "ioerr": 3, "cut": 2}
@@ -271,6 +276,20 @@ func parseSpec(script []string) (*caseSpec, error) {
 				return nil, bad
 			}
 			c.missing = append(c.missing, ds...)
+		case "composite":
+			want := map[string]int{"whole": 2, "slice": 4, "fail": 3}
+			if len(w) < 2 || want[w[1]] != len(w) {
+				return nil, bad
+			}
+			c.composite = w[1]
+			c.cargs = nil
+			for _, a := range w[2:] {
+				v, ok := atoi(a)
+				if !ok || v < 0 || (w[1] == "fail" && (v == 0 || v > 16)) {
+					return nil, bad
+				}
+				c.cargs = append(c.cargs, v)
+			}
 		case "fault":
 			if len(w) != 3 {
 				return nil, bad
@@ -713,7 +732,14 @@ func (bc *builtCase) render() {
 	for _, k := range fk {
 		l = append(l, fmt.Sprintf("fault %d %d", k, s.faults[k]))
 	}
-	l = append(l, "run")
+	switch s.composite {
+	case "":
+		l = append(l, "run")
+	case "fail":
+		l = append(l, fmt.Sprintf("runc %d", s.cargs[0]))
+	default:
+		l = append(l, "runc -")
+	}
 	bc.modelLines = l
 }
 
@@ -874,6 +900,7 @@ func (r *recCAS) Put(ctx context.Context, d digest.Digest, b buffer.Buffer) erro
 type recAC struct {
 	bc         *builtCase
 	gets       int
+	composites int
 	unexpected string
 }
 
@@ -889,9 +916,12 @@ func (a *recAC) Get(ctx context.Context, d digest.Digest) buffer.Buffer {
 	return buffer.NewProtoBufferFromProto(proto.Clone(a.bc.ar), buffer.BackendProvided(func(bool) {}))
 }
 
+// GetFromComposite behaves like every plain backend: slice what Get returns. The decorator must
+// not delegate to it (it would bypass the check); whether it does shows in the property oracles.
 func (a *recAC) GetFromComposite(ctx context.Context, parent, child digest.Digest, slicer slicing.BlobSlicer) buffer.Buffer {
-	a.unexpected = "GetFromComposite on the AC"
-	return buffer.NewBufferFromError(status.Error(codes.Unimplemented, "unexpected"))
+	a.composites++
+	b, _ := slicer.Slice(a.Get(ctx, parent), child)
+	return b
 }
 
 func (a *recAC) Put(ctx context.Context, d digest.Digest, b buffer.Buffer) error {
@@ -910,12 +940,52 @@ var (
 	_ blobstore.BlobAccess = (*recAC)(nil)
 )
 
+// ---------------------------------------------------------------- slicers
+
+// scriptedSlicer is a slicing.BlobSlicer that only has the buffer it is given: it reads the
+// parent (an error of the parent is what it returns) and hands out the parent, a byte range of
+// it, or an error of its own.
+type scriptedSlicer struct {
+	mode  string
+	args  []int
+	calls int
+}
+
+func (sl *scriptedSlicer) Slice(b buffer.Buffer, childDigest digest.Digest) (buffer.Buffer, []slicing.BlobSlice) {
+	sl.calls++
+	if sl.mode == "whole" {
+		return b, nil
+	}
+	data, err := b.ToByteSlice(1 << 30)
+	if err != nil {
+		return buffer.NewBufferFromError(err), nil
+	}
+	if sl.mode == "fail" {
+		return buffer.NewBufferFromError(status.Error(codes.Code(sl.args[0]), "scripted slicing failure")), nil
+	}
+	lo, hi := sliceRange(len(data), sl.args)
+	return buffer.NewValidatedBufferFromByteSlice(data[lo:hi]), nil
+}
+
+func sliceRange(n int, args []int) (int, int) {
+	lo := args[0]
+	if lo > n {
+		lo = n
+	}
+	hi := lo + args[1]
+	if hi > n {
+		hi = n
+	}
+	return lo, hi
+}
+
 // ---------------------------------------------------------------- running the real code
 
 type observed struct {
 	outcome  string // result | error <code> | panic
 	code     codes.Code
 	returned proto.Message
+	bytes    []byte
 	cas      *recCAS
 	ac       *recAC
 	panicMsg string
@@ -932,6 +1002,22 @@ func runReal(bc *builtCase) (o observed) {
 	}()
 	ba := completenesschecking.NewCompletenessCheckingBlobAccess(o.ac, o.cas, bc.spec.batch, bc.spec.maxMsg, bc.spec.budget)
 	actionDigest := digest.MustNewDigest(instanceName, bc.fn.GetEnumValue(), hashOf(bc.spec.fn, []byte("action")), 123)
+	if bc.spec.composite != "" {
+		childDigest := digest.MustNewDigest(instanceName, bc.fn.GetEnumValue(), hashOf(bc.spec.fn, []byte("child")), 5)
+		sl := &scriptedSlicer{mode: bc.spec.composite, args: bc.spec.cargs}
+		data, err := ba.GetFromComposite(context.Background(), actionDigest, childDigest, sl).ToByteSlice(1 << 30)
+		if sl.calls != 1 {
+			o.cas.unexpected = fmt.Sprintf("slicer called %d times", sl.calls)
+		}
+		if err != nil {
+			o.code = status.Code(err)
+			o.outcome = fmt.Sprintf("error %d", int(o.code))
+			return
+		}
+		o.outcome = "result"
+		o.bytes = data
+		return
+	}
 	msg, err := ba.Get(context.Background(), actionDigest).ToProto(&remoteexecution.ActionResult{}, 1<<30)
 	if err != nil {
 		o.code = status.Code(err)
@@ -1116,8 +1202,25 @@ func oracle(bc *builtCase, o observed) (what, detail string) {
 		if len(un) > 0 {
 			fail(whatUnchecked, fmt.Sprintf("never checked %v; calls %v", un, o.cas.calls))
 		}
-		if !proto.Equal(o.returned, bc.ar) {
-			fail(whatDiffers, "")
+		switch bc.spec.composite {
+		case "":
+			if !proto.Equal(o.returned, bc.ar) {
+				fail(whatDiffers, "")
+			}
+		case "whole":
+			got := &remoteexecution.ActionResult{}
+			if proto.Unmarshal(o.bytes, got) != nil || !proto.Equal(got, bc.ar) {
+				fail(whatDiffers, "through GetFromComposite")
+			}
+		case "slice":
+			if full, err := proto.Marshal(bc.ar); err == nil {
+				lo, hi := sliceRange(len(full), bc.spec.cargs)
+				if !bytes.Equal(o.bytes, full[lo:hi]) {
+					fail(whatDiffers, "slice through GetFromComposite")
+				}
+			}
+		case "fail":
+			fail(whatDiffers, "a failing slicer yielded data")
 		}
 	}
 	// incomplete, nothing else wrong => exactly NOT_FOUND
@@ -1248,6 +1351,11 @@ func runCase(run *hx.Run, model *hx.Model, name string, script []string, report 
 		}
 		if len(spec.faults) > 0 {
 			run.Count("with-fault")
+		}
+		if spec.composite != "" {
+			run.Count("entry:GetFromComposite/" + spec.composite)
+		} else {
+			run.Count("entry:Get")
 		}
 		if len(bc.missing) > 0 {
 			run.Count("with-missing")
@@ -1647,7 +1755,8 @@ func TestC13(t *testing.T) {
 		"nil and malformed digests, inlined contents) through the real decorator over recording AC/CAS backends; per message: every subset of the referenced " +
 		"digests missing (<= 6 quick / <= 8 thorough, else singletons + random subsets), batch sizes 1..4, a CAS fault at every call index, every Tree shared by " +
 		"a second output directory of the other root-digest mode (listed before and after) with each child directory object absent, Trees cut/truncated/failing " +
-		"at boundary bytes (quick) or every byte (thorough); plus raw byte strings through util.VisitProtoBytesFields. " +
+		"at boundary bytes (quick) or every byte (thorough); each message also through GetFromComposite (slicer returning the parent, a byte range, or failing), " +
+		"complete, with every single object missing and with a fault; plus raw byte strings through util.VisitProtoBytesFields. " +
 		"A case is non-trivial when the action result references >= 2 distinct well-formed digests and the CAS is called; distinct by script hash")
 
 	// Oracle hits and disagreements have separate budgets: a change that makes model and
@@ -1736,6 +1845,19 @@ func TestC13(t *testing.T) {
 			do(withCfgBatch(base, b))
 		}
 		u := res.universe
+		// the second read entry point: the same message through GetFromComposite, complete, with
+		// every single object missing, and with a fault
+		comps := []string{"composite whole", fmt.Sprintf("composite slice %d %d", r.PickInt(0, 0, 1, 7, 1000), r.PickInt(0, 1, 16, 1<<20)),
+			fmt.Sprintf("composite fail %d", r.PickInt(3, 5, 13))}
+		for _, c := range comps {
+			do(append(append([]string{}, base...), c))
+		}
+		for j := range u {
+			do(withCfgBatch(append(append([]string{}, base...), missingLine([]dtok{u[j]}), comps[r.Intn(len(comps))]), r.Range(1, 4)))
+		}
+		if res.ncalls > 0 {
+			do(append(append([]string{}, base...), fmt.Sprintf("fault %d %d", r.Intn(res.ncalls), faultCodes[r.Intn(len(faultCodes))]), comps[r.Intn(2)]))
+		}
 		// missing subsets
 		if len(u) <= maxSubsetRefs {
 			for m := 1; m < 1<<len(u); m++ {
@@ -1748,6 +1870,9 @@ func TestC13(t *testing.T) {
 				s := append(append([]string{}, base...), missingLine(ds))
 				if r.Chance(1, 3) {
 					s = withCfgBatch(s, r.Range(1, 4))
+				}
+				if r.Chance(1, 6) {
+					s = append(s, comps[r.Intn(len(comps))])
 				}
 				do(s)
 			}
